@@ -100,6 +100,17 @@ def check(kinds, edges, seq, stats):
             if set(goti) != want:
                 return V('incremental_differs_from_recomputed', 'incrementally updated surface differs from the recomputed one',
                          expected=sorted(want), observed=sorted(goti))
+            if newly and len(surface) == len(newly) and all(any(x is y for y in newly) for x in surface):
+                # every node of the previous surface was compromised: a caller may hand the surface itself
+                # over as the list of newly compromised nodes (one list object in both roles)
+                both = list(surface)
+                inc2 = query.update_attack_surface_add_nodes(A, both, both)
+                goti2 = {idx.get(id(x), -1) for x in inc2}
+                stats['queries'] += 1
+                if goti2 != want:
+                    return V('incremental_differs_from_recomputed:aliased_arguments',
+                             'incrementally updated surface differs from the recomputed one when the surface list is also passed as the new nodes',
+                             expected=sorted(want), observed=sorted(goti2))
         surface = full
         ds = {idx.get(id(x), -1) for x in query.get_defense_surface(g)}
         en = {idx.get(id(x), -1) for x in query.get_enabled_defenses(g)}
